@@ -572,8 +572,12 @@ def roundtrip(obs, make_regions, opts, what, tmpdir=None, stage='rt', pre_repair
 # ===========================================================================
 # generators, side (a)
 LABELS_PLAIN = ['src 1', 'A', 'My label here', 'region18', 'NGC_1234-b', 'x;y#z', 'a.b:c/d', '(core) +2', 'α Cen', '-x', '42']
-LABELS_HOSTILE = ['NGC 1234, north', 'bracket [1]', 'say "hi" there', 'a,b']
-TEXTS = ['hello', 'a b', 'NGC 1234', 'x;y#z', 'α Cen', 'two, parts', 'T', '(1) core + jet', '3.5mJy', 'the "core"', '"quoted"', 'offset 30"']
+# (also: '=' inside a quoted string; characters that str.splitlines() treats as line boundaries but the CRTF line
+# grammar does not - form feed, vertical tab, FS/GS/RS, NEL, LS, PS)
+LINECHARS = ['page\x0cbreak', 'v\x0bt', 'fs\x1cgs\x1drs\x1eend', 'nel\x85x', 'ls\u2028x', 'ps\u2029x', 'tab\tx']
+LABELS_HOSTILE = ['NGC 1234, north', 'bracket [1]', 'say "hi" there', 'a,b', 'S/N = 5', 'k=v'] + LINECHARS
+TEXTS = ['hello', 'a b', 'NGC 1234', 'x;y#z', 'α Cen', 'two, parts', 'T', '(1) core + jet', '3.5mJy', 'the "core"', '"quoted"', 'offset 30"',
+         'S/N = 5.2', 'k=v', 'a= b', 'x [1]'] + LINECHARS
 RANGES = [[(-1240.0, 'km/s'), (1240.0, 'km/s')], [(1.42, 'GHz'), (1.421, 'GHz')], [(1420.405, 'MHz'), (1421.0, 'MHz')],
           [(-320.0, 'm/s'), (-330.0, 'm/s')], [(5.0, 'chan'), (20.0, 'chan')], [(1.5, 'kHz'), (2.25, 'kHz')],
           [(100.0, 'Hz'), (200.0, 'Hz')]]
